@@ -22,6 +22,13 @@ CLAIMED = {
  'C20': dict(tech="TLC: spec theorems (algorithmic successor = least greater arrangement; combination order; minimal subset) + TLC trace validation of every call on every list of length 0..5 over {1,2,3}, distinct lists to 6/7, every multiset of <= 4/5 weights and every target, each call repeated and interleaved",
              text="Finite space enumerated completely within the bounds; TLC judges each recorded call against base/Combinat: multiset of arrangements (count, validity, multiplicity), list restored, lexicographic successor with wrap-around, combinations in index order, subset-sum answers (sub-collection, exact sum, failure iff unsolvable, minimal size for dynprog), at every position of a call history.",
              ref="DESIGN.md section 7 C20"),
+
+ 'C01': dict(tech="TLC: padding machine + hash object with symbolic compression model-checked; TLC trace validation recomputing every digest with the TLA+ transcriptions of RFC 1320/1321 and FIPS 180-4 over the length-class grid of all ten algorithms",
+             text="Structure (length classes L mod block, number of blocks, L mod 8, spill boundary, over-long bit lengths, counters preset across 2^32/2^64) is enumerated: quick = boundary sets, thorough = every L in 0..3B; message content is seeded.  Every recorded digest (value and length) or refusal is judged by TLC against sys/HashObj over prim/Md4, Md5, Sha1, Sha2, themselves validated against hashlib/OpenSSL/RFC vectors at setup.",
+             ref="DESIGN.md section 7 C01"),
+ 'C14': dict(tech="TLC: hash object with symbolic injective compression (all cut sets up to 3.5 blocks: idle state = fold of fed blocks, piecewise = one-shot) + every TLC-generated call history replayed on real MD4/MD5/SHA-1/SHA-2/BLAKE objects and trace-validated step by step",
+             text="All call histories of depth 3 (quick) / 4 (thorough) over the alphabet continue(0..2 blocks)/bad continuation/final(0..1 blocks x 5 residue classes)/over-long/re-init, on 14 hash objects round-robin, seeded data; TLC recomputes the chaining value, the bit counter after each piece and the final digest with the real compression functions, so the digest is compared with the standard's digest of the whole message.",
+             ref="DESIGN.md section 7 C14"),
 }
 PENDING = "check not built yet in this tree (specification modules are being written; see DESIGN.md section 12 build order) - not claimed until its quick command runs clean"
 def main():
